@@ -52,6 +52,7 @@ type Config struct {
 	NoVersioning     bool
 	FailOnUnimplPage bool
 	NoIntegrity      bool
+	TimeSkew         bool // keep the default 15 min request-time skew check
 	MetaLimit        int
 	BoltSync         bool                     // keep bbolt's fsyncs (crashmc); default NoSync for speed
 	FsWrap           func(afero.Fs) afero.Fs  // wraps the base fs handed to the backend (schedmc / crashmc)
@@ -192,11 +193,18 @@ func (w *World) open() error {
 	return nil
 }
 
+func skewLimit(cfg Config) time.Duration {
+	if cfg.TimeSkew {
+		return gofakes3.DefaultSkewLimit
+	}
+	return 0
+}
+
 func (w *World) buildFaker() {
 	cfg := w.Cfg
 	opts := []gofakes3.Option{
 		gofakes3.WithTimeSource(w.Clock),
-		gofakes3.WithTimeSkewLimit(0),
+		gofakes3.WithTimeSkewLimit(skewLimit(cfg)),
 		gofakes3.WithAutoBucket(cfg.AutoBucket),
 		gofakes3.WithHostBucket(cfg.HostBucket),
 		gofakes3.WithIntegrityCheck(!cfg.NoIntegrity),
